@@ -1,4 +1,5 @@
 import DswModel.Model.Basic
+import DswModel.Model.Float
 /-!
 # DswModel.Py.Value — the Python fragment the translator `harness/py2lean.py` targets
 
@@ -111,6 +112,7 @@ def PV.eqb : PV → PV → Bool
   | .arr a, .arr b => PV.eqbList a b
   | .rat n d, .int b => n == b * d
   | .int a, .rat n d => a * d == n
+  | .rat n d, .rat m c => n * c == m * d
   | .none, .none => true
   | _, _ => false
 def PV.eqbList : List PV → List PV → Bool
@@ -167,6 +169,7 @@ def pyLt (a b : PV) : R Bool :=
   | _, _ =>
     match a, b with
     | .str s, .str t => .ok (strLt s t)
+    | .rat n d, .rat m c => .ok (decide (n * c < m * d))
     | .rat n d, y => match y.asInt? with
                      | some y => .ok (decide (n < y * d))
                      | Option.none => .error .typeError
@@ -181,6 +184,7 @@ def pyLe (a b : PV) : R Bool :=
   | _, _ =>
     match a, b with
     | .str s, .str t => .ok (!strLt t s)
+    | .rat n d, .rat m c => .ok (decide (n * c ≤ m * d))
     | .rat n d, y => match y.asInt? with
                      | some y => .ok (decide (n ≤ y * d))
                      | Option.none => .error .typeError
@@ -193,6 +197,39 @@ def pyLe (a b : PV) : R Bool :=
 @[inline] def pyGe (a b : PV) : R Bool := pyLe b a
 @[inline] def pyEq (a b : PV) : R Bool := .ok (PV.eqb a b)
 @[inline] def pyNe (a b : PV) : R Bool := .ok (!PV.eqb a b)
+
+/-! ## floats
+
+A Python `float` is a `.rat num den` whose value is a double (`Model/Float.lean`): an operation with a float operand
+converts an int operand with `float()` and rounds the exact result to the nearest double. (`a / b` on two ints,
+`pyTrueDiv` below, is the one place that keeps the exact quotient.) -/
+
+def PV.isRat : PV → Bool
+  | .rat _ _ => true
+  | _ => false
+
+/-- the operand of a float operation: a float, or an int converted with `float()`. -/
+def PV.asDbl? : PV → Option Dbl
+  | .rat n d => if d > 0 then some ⟨n, d.toNat⟩ else Option.none
+  | .int i => Dbl.ofInt i
+  | .bool b => some ⟨if b then 1 else 0, 1⟩
+  | _ => Option.none
+
+/-- a float result; a result that would be `inf` is outside the fragment (`PyErr.other`). -/
+def ratOfDbl : Option Dbl → RV
+  | some x => .ok (.rat x.num x.den)
+  | Option.none => .error .other
+
+/-- `a op b` when one operand is a float (`TypeError` otherwise; an int too large for `float()` is `OverflowError`). -/
+def floatOp (f : Dbl → Dbl → Option Dbl) (a b : PV) : RV :=
+  if a.isRat || b.isRat then
+    match a.asDbl?, b.asDbl? with
+    | some x, some y => ratOfDbl (f x y)
+    | _, _ => match a.asInt?, b.asInt? with
+              | some _, _ => .error .overflowError
+              | _, some _ => .error .overflowError
+              | _, _ => .error .typeError
+  else .error .typeError
 
 /-! ## arithmetic -/
 
@@ -208,12 +245,12 @@ def pyAdd (a b : PV) : RV :=
     | .str s, .str t => .ok (.str (s ++ t))
     | .list s, .list t => .ok (.list (s ++ t))
     | .tup s, .tup t => .ok (.tup (s ++ t))
-    | _, _ => .error .typeError
+    | _, _ => floatOp Dbl.add a b
 
 def pySub (a b : PV) : RV :=
   match a.asInt?, b.asInt? with
   | some x, some y => .ok (.int (x - y))
-  | _, _ => .error .typeError
+  | _, _ => floatOp Dbl.sub a b
 
 /-- `a * b`: ints, and sequence repetition (a non-positive count gives the empty sequence). -/
 def pyMul (a b : PV) : RV :=
@@ -225,7 +262,7 @@ def pyMul (a b : PV) : RV :=
     | .list s, some n, _, _ => .ok (.list (replicateList n s))
     | _, _, some n, .str s => .ok (.str (replicateList n s))
     | _, _, some n, .list s => .ok (.list (replicateList n s))
-    | _, _, _, _ => .error .typeError
+    | _, _, _, _ => floatOp Dbl.mul a b
 
 /-- `a // b` on ints (floor division; `ZeroDivisionError` is `PyErr.other`). -/
 def pyFloorDiv (a b : PV) : RV :=
@@ -248,7 +285,9 @@ def pyDivmod (a b : PV) : RV :=
 def pyNeg (a : PV) : RV :=
   match a.asInt? with
   | some x => .ok (.int (-x))
-  | Option.none => .error .typeError
+  | Option.none => match a with
+                   | .rat n d => .ok (.rat (-n) d)
+                   | _ => .error .typeError
 
 /-! ## conversions -/
 
@@ -293,6 +332,7 @@ def pyInt (v : PV) : RV :=
   | .str cs => match parseNat? cs with
                | some n => .ok (.int n)
                | Option.none => .error .valueError
+  | .rat n d => if d > 0 then .ok (.int (Int.tdiv n d)) else .error .other     -- `int(float)` truncates toward zero
   | _ => .error .typeError
 
 /-- the items a `for` loop / `list()` / `map` / `join` sees. -/
@@ -900,6 +940,66 @@ def npFullBool (c : Bool) (shape : PV) : RV :=
 
 def npZerosBool (shape : PV) : RV := npFullBool false shape
 def npOnesBool (shape : PV) : RV := npFullBool true shape
+
+/-! ## string methods used by `dsw/biofilter.py`, attributes of objects -/
+
+/-- `s.replace(old, new)` for a non-empty `old` (`skip` = characters of a match still to be dropped). -/
+def replaceGo (old new : List Char) : Nat → List Char → List Char
+  | _, [] => []
+  | skip + 1, _ :: cs => replaceGo old new skip cs
+  | 0, c :: cs =>
+    if old.isPrefixOf (c :: cs) then new ++ replaceGo old new (old.length - 1) cs
+    else c :: replaceGo old new 0 cs
+
+/-- `s.replace(old, new)` (all occurrences, left to right, non-overlapping; an empty `old` matches before every
+character and at the end). -/
+def pyReplace (s old new : PV) : RV :=
+  match s, old, new with
+  | .str s, .str o, .str n =>
+    if o.isEmpty then .ok (.str (n ++ (s.map fun c => c :: n).flatten))
+    else .ok (.str (replaceGo o n 0 s))
+  | _, _, _ => .error .typeError
+
+/-- `s.upper()` on ASCII strings (a non-ASCII character is outside the fragment: `PyErr.other`). -/
+def pyUpper (s : PV) : RV :=
+  match s with
+  | .str s => if s.all (fun c => c.toNat < 128) then .ok (.str (s.map Char.toUpper)) else .error .other
+  | _ => .error .other
+
+/-- number of non-overlapping occurrences of a non-empty `pat`, scanning left to right. -/
+def countGo (pat : List Char) : Nat → List Char → Nat
+  | _, [] => 0
+  | skip + 1, _ :: cs => countGo pat skip cs
+  | 0, c :: cs => if pat.isPrefixOf (c :: cs) then 1 + countGo pat (pat.length - 1) cs else countGo pat 0 cs
+
+/-- `s.count(sub)` on strings (`len(s) + 1` for the empty pattern); other receivers are outside the fragment. -/
+def pyCount (s sub : PV) : RV :=
+  match s, sub with
+  | .str s, .str p => if p.isEmpty then .ok (.int (s.length + 1)) else .ok (.int (countGo p 0 s))
+  | .str _, _ => .error .typeError
+  | _, _ => .error .other
+
+/-- `obj.name` — an object of a translated class is the `.dict` of its attributes (keys = attribute names, in the
+order of their first assignment); a missing attribute (`AttributeError`) is `PyErr.other`. -/
+def pyGetAttr (obj : PV) (name : String) : RV :=
+  match obj with
+  | .dict ks vs => match findIdxEq (.str name.toList) ks 0 with
+                   | some j => .ok (vs.getD j .none)
+                   | Option.none => .error .other
+  | _ => .error .other
+
+/-- `obj.name = v`, as a new object. -/
+def pySetAttr (obj : PV) (name : String) (v : PV) : RV :=
+  match obj with
+  | .dict _ _ => pySetItem obj (.str name.toList) v
+  | _ => .error .other
+
+/-- what a constructor call returns: the object its `__init__` built (`__init__` may not `return` a value). -/
+def initResult {ε} (m : R (Flow ε)) (self : ε → PV) : RV :=
+  match m with
+  | .error e => .error e
+  | .ok (.norm e) => .ok (self e)
+  | .ok _ => .error .other
 
 /-! ## objects handed in by the caller
 
